@@ -59,6 +59,8 @@ def lhs_shapes(N):
         "zext-and-narrowmask": lambda cl, x, y, K: cl.ZeroExt(h, x) & ((1 << (N - 1)) - 1),
         "zext-add1-and-narrowmask": lambda cl, x, y, K: cl.ZeroExt(h, x + 1) & ((1 << (N - 1)) - 1),
         "shl1": lambda cl, x, y, K: x << 1,
+        "zext-shl1": lambda cl, x, y, K: cl.ZeroExt(h, x) << 1,
+        "zext-shl-h": lambda cl, x, y, K: cl.ZeroExt(h + 1, x) << h,
         "shl-k": lambda cl, x, y, K: x << K[1],
         "shl-h": lambda cl, x, y, K: x << h,
         "if-cmp": lambda cl, x, y, K: cl.If(cl.ULE(x, K[1]), x, K[2]),
@@ -99,6 +101,15 @@ def bool_shapes(N):
         "true": lambda cl, x, y, K: cl.true(),
         "false": lambda cl, x, y, K: cl.false(),
         "k-cmp-k": lambda cl, x, y, K: cl.ULE(K[0], K[1]),
+        # a disjunction that cannot be unpacked (no disjunct is definitely false)
+        "or-uge-ult": lambda cl, x, y, K: cl.Or(cl.UGE(x, K[0]), cl.ULT(x, K[1])),
+        "or-ule-eq": lambda cl, x, y, K: cl.Or(cl.ULE(x, K[0]), x == K[1]),
+        "not-and-xy": lambda cl, x, y, K: cl.Not(cl.And(cl.ULE(x, K[0]), cl.SLT(y, K[1]))),
+        "not-and-same": lambda cl, x, y, K: cl.Not(cl.And(cl.ULT(x, K[0]), cl.ULT(y, K[0]))),
+        # signed and unsigned bounds on one expression
+        "and-ne-slt": lambda cl, x, y, K: cl.And(x != K[0], cl.SLT(x, K[1])),
+        "and-slt-ult": lambda cl, x, y, K: cl.And(cl.SLT(x, K[0]), cl.ULT(x, K[1])),
+        "and-sge-ule": lambda cl, x, y, K: cl.And(cl.SGE(x, K[0]), cl.ULE(x, K[1])),
     }
 
 
@@ -178,8 +189,8 @@ def obligations(tier):
                         if quick and var == "bvs":
                             # quick tier: the ordered comparisons alternate between shapes (every rule still meets an upper-bound,
                             # a lower-bound, a signed and a reversed comparison); the thorough tier runs all of them on every shape
-                            allowed = {("ULE", "l"), ("UGE", "l"), ("eq", "l"), ("SGE", "l"), ("ne", "l")} if si_ % 2 == 0 else \
-                                      {("ULE", "l"), ("UGE", "l"), ("eq", "l"), ("SLT", "l"), ("ULE", "r")}
+                            allowed = {("ULE", "l"), ("UGE", "l"), ("eq", "l"), ("ULT", "l"), ("SGE", "l"), ("ne", "l")} if si_ % 2 == 0 else \
+                                      {("ULE", "l"), ("UGE", "l"), ("eq", "l"), ("UGT", "l"), ("SLT", "l"), ("ULE", "r"), ("ULT", "l")}
                             if (op, side) not in allowed:
                                 continue
                         out.append((f"c2si:{var}:{N}:c|{shape}|{op}|{side}",
